@@ -158,6 +158,18 @@ def names_allowed(name: str, mid: int) -> List[str]:
     return reg or [""]
 
 
+def _arm():
+    """CPU budget for one case of this module (an endless loop that never touches the socket): after 2 s of CPU time
+    `Hang` is raised inside the case and recorded like any other exception of the code under test"""
+    from .read_corr import cpu_guard
+    cpu_guard(2.0, Hang).__enter__()
+
+
+def _disarm():
+    import signal
+    signal.setitimer(signal.ITIMER_VIRTUAL, 0)
+
+
 def check_entry_points() -> Dict[str, Any]:
     """returns {"cases": n, "failures": [ {entry, options, frames, what} ]}"""
     import pyrtma.client as CL
@@ -174,6 +186,9 @@ def check_entry_points() -> Dict[str, Any]:
             world = {"sent": b"", "inbuf": _ack_bytes(timecode, mid or 117) * 4}
             CL.socket, CL.select, CL.time = _shims(world)
             n += 1
+            if sum(1 for f in failures if 'Hang' in str(f.get('what'))) >= 4:
+                break       # the call hangs every time: the hangs recorded so far are the verdict
+            _arm()
             try:
                 if entry == "client_context":
                     with CL.client_context(module_id=mid, server_name="h:1", timecode=timecode, logger_status=logger,
@@ -223,6 +238,9 @@ def check_entry_points() -> Dict[str, Any]:
             world = {"sent": b"", "inbuf": _ack_bytes(timecode, mid or 117) * 2}
             CL.socket, CL.select, CL.time = _shims(world)
             n += 1
+            if sum(1 for f in failures if 'Hang' in str(f.get('what'))) >= 4:
+                break       # the call hangs every time: the hangs recorded so far are the verdict
+            _arm()
             opts = dict(reconnect_after=how, logger=logger, allow_multiple=allow, name="rc", id=mid, timecode=timecode)
             try:
                 c = CL.Client(module_id=mid, timecode=timecode, name="rc")
@@ -271,6 +289,7 @@ def check_entry_points() -> Dict[str, Any]:
             for b in bad:
                 failures.append({"entry": "reconnect", "options": opts, "frames": frames[:3], "what": b})
     finally:
+        _disarm()
         CL.socket, CL.select, CL.time = saved
     return {"cases": n, "failures": failures}
 
@@ -292,6 +311,9 @@ def check_reconnect_state() -> Dict[str, Any]:
         for how, sub_all, timecode in itertools.product(("disconnect", "eof_on_read", "reset_on_send", "still_connected"),
                                                         (False, True), (False, True)):
             n += 1
+            if sum(1 for f in failures if 'Hang' in str(f.get('what'))) >= 4:
+                break       # the call hangs every time: the hangs recorded so far are the verdict
+            _arm()
             world = {"sent": b"", "inbuf": _ack_bytes(timecode, 12) * 3}     # handshake (2) + subscribe (1)
             CL.socket, CL.select, CL.time = _shims(world)
             tag = dict(first_session_ended_by=how, subscribed_to_all=sub_all, timecode=timecode)
@@ -350,6 +372,7 @@ def check_reconnect_state() -> Dict[str, Any]:
                 failures.append(dict(tag, property="C02", what=f"raised {type(e).__name__}: {e}"))
                 failures.append(dict(tag, property="C08", what=f"raised {type(e).__name__}: {e}"))
     finally:
+        _disarm()
         CL.socket, CL.select, CL.time = saved
     return {"cases": n, "failures": failures}
 
@@ -416,6 +439,9 @@ def entry_model_cases() -> List[Dict[str, Any]]:
                 CL.socket, CL.select, CL.time = _shims(world)
                 cid = f"e{n}"
                 n += 1
+                if sum(1 for c0 in out if any("raised_Hang" in l for l in c0["protocol"])) >= 4:
+                    break       # the call hangs every time: the hangs recorded so far are the verdict
+                _arm()
                 lines = [f"ECASE {cid} {kind}"] + mid_lines + [_call_line(w, p, k) for w, (p, k) in calls.items()]
                 lines.append(f"OPT {int(logger)} {int(daemon)} {int(allow)} {mid} {_hexs(name)}")
                 err = None
@@ -455,5 +481,6 @@ def entry_model_cases() -> List[Dict[str, Any]]:
                             "options": dict(logger=logger, daemon=daemon, allow_multiple=allow, name=name, id=mid),
                             "calls": {w: [list(p), dict(k)] for w, (p, k) in calls.items()}, "protocol": lines})
     finally:
+        _disarm()
         CL.socket, CL.select, CL.time = saved
     return out
